@@ -207,6 +207,36 @@ def run(ck: Check) -> None:
     typed = gen.delegating_md("root", {}, version=1)
     typed["note"] = huge
     named.append((Case("vdeleg", ["key_mgr", gen.envelope(typed), tmd, False], tag="named:huge-int-payload-type-mismatch"), "E MetadataVerificationError"))
+    # inputs no protocol can carry to the model — a payload that contains itself — run on the implementation alone: still one of the documented families
+    from .. import impl
+    cyc = {"a": [1, 2]}
+    cyc["a"].append(cyc)
+    cl = [1]
+    cl.append({"back": cl})
+    for pl in (cyc, cl, {"x": {"y": cyc}}):
+        e_ = {"signatures": {kk[0].hex: {"signature": "ab" * 64}}, "signed": pl}
+        for op_, args_ in (("vsignable", [e_, [kk[0].hex], 1, False]), ("vsignable", [e_, [kk[0].hex], 1, True]), ("vdeleg", ["key_mgr", e_, tmd, False])):
+            with impl.quiet_stdout():
+                out_ = impl._run(op_, args_)
+            ck.evaluations += 1
+            ck.oracle_checks += 1
+            ck.count("self-containing-payload:" + out_[:24])
+            if out_ not in ("E ArgError", "E SignatureError"):
+                ck.violation("a verifier given a payload that contains itself ended outside the documented error families", {"call": op_, "impl": out_}, f"family:{op_}:{out_}:self-containing")
+    # a call whose diagnostics cannot be printed (broken pipe / full device), then the same call on a healthy stdout: the second terminates with its usual verdict
+    e_ = gen.sign_env(gen.envelope({"a": 1}), kk[:1], False)
+    e_["signatures"]["junk"] = "x"
+    e_["signatures"][gen.key(7).hex] = {"signature": "00" * 64}
+    for mode in ("broken:pipe", "broken:full", "broken:closed"):
+        first = impl.run_case("vsignable", [e_, [kk[0].hex], 1, False], mode)
+        second = impl.run_case("vsignable", [e_, [kk[0].hex], 1, False], "utf-8")
+        ck.evaluations += 2
+        ck.oracle_checks += 1
+        ck.count("after-broken-stdout:" + second[:20])
+        if second != "OK":
+            ck.violation("after a call whose diagnostics could not be printed, the same call on a healthy standard output does not return its usual verdict (does not terminate / fails)",
+                         {"stdout_of_first_call": mode, "first": first, "second": second}, f"after-broken-stdout:{second}")
+            break
     res = ck.run_cases([n[0] for n in named], "corr:named-error-mappings/outcome-class")
     for (c, want), r in zip(named, res):
         ck.oracle_checks += 1
